@@ -7,7 +7,8 @@ import itertools
 FORBIDDEN = frozenset(b" \t\r\n\x0b\x0c\x00")
 # one representative per equivalence class of the byte alphabet (for length-3 keys)
 CLASS_BYTES = [0x20, 0x09, 0x0A, 0x0D, 0x0B, 0x0C, 0x00, 0x01, 0x1C, 0x7F, ord("a"), ord("0"), 0x80, 0xC3, 0xA9, 0xFF]
-EXTRA_CODEPOINTS = [0x100, 0x20AC, 0x2603, 0x1F600, 0x3000, 0x2028]  # incl. non-ASCII "whitespace"
+# incl. non-ASCII "whitespace" and code points that Unicode normalisation would change
+EXTRA_CODEPOINTS = [0x100, 0x20AC, 0x2603, 0x1F600, 0x3000, 0x2028, 0x0301, 0x212B, 0x0958, 0x1100]
 PREFIXES = [b"", b"p", b"ns:", b"p" * 125, b"p" * 249, b"p" * 250, b"a b", b"\tp"]
 
 
@@ -93,7 +94,7 @@ def boundary_keys(prefix_len, prefix=None):
             out += [ps, ps + "k", ps + ps, prefix, prefix + b"k", prefix + prefix]
         except UnicodeDecodeError:
             out += [prefix, prefix + b"k"]
-    for ch in ("a", "é", "€", "\U0001F600"):
+    for ch in ("a", "é", "€", "\U0001F600", "e\u0301", "\u0958", "\u212b"):
         w = len(ch.encode("utf8"))
         for total in range(room - 5, room + 6):
             if total <= 0:
